@@ -46,6 +46,9 @@ structure DState where
   rawDbg : Bool := false
   /-- a failing operation on a large RawTable ran on the only reference to it (see `rawMut`) -/
   rawLost : Bool := false
+  /-- a `paths` iterator kept open across other operations: the cubes it has not yielded yet
+  (`paths` is a pure function of the diagram, which the harness keeps alive meanwhile) -/
+  pit : Option (List (List Int)) := none
   /-- abstract reply mode: handles are printed as canonical diagrams (indices renumbered in visit
   order) plus the first equal handle; state snapshots are suppressed -/
   abs : Bool := false
@@ -375,6 +378,26 @@ def stepMgr (d : DState) (s : St) (toks : List String) : DState × String :=
     | some f => keep d s (match paths FUEL s f with
         | some ps => "[" ++ ", ".intercalate (ps.map showIntList) ++ "]" | none => "panic fuel")
     | none => keep d s "bad-op"
+  | "heldgc" :: which :: rs =>
+    match hsOf d.env rs, (match which with | "cache" => some 0 | "size" => some 1 | "storage" => some 2 | _ => none) with
+    | some _, some w =>
+      match collectGarbageHeld w s with
+      | .ok s' => ({ d with st := some s' }, "ok")
+      | .error (e, s') => ({ d with st := some s' }, "panic " ++ e.toString)
+    | _, _ => keep d s "bad-op"
+  | ["pathsi.open", f] =>
+    match hOf d.env f with
+    | some f =>
+      match paths FUEL s f with
+      | some ps => keep { d with pit := some ps } s "ok"
+      | none => keep d s "panic fuel"
+    | none => keep d s "bad-op"
+  | ["pathsi.next"] =>
+    match d.pit with
+    | none => keep d s "closed"
+    | some [] => keep { d with pit := none } s "end"
+    | some (p :: rest) => keep { d with pit := some rest } s (showIntList p)
+  | ["pathsi.close"] => keep { d with pit := none } s "ok"
   | ["size", f] =>
     match hOf d.env f with
     | some f => let p := size s f; ({ d with st := some p.1 }, toString p.2)
@@ -415,15 +438,15 @@ def step (d : DState) (line : String) : DState × String :=
     match sb.toNat?, bb.toNat?, cb.toNat? with
     | some sb, some bb, some cb =>
       match St.newWith sb bb cb with
-      | .ok s => ({ d with st := some s, env := #[Ref.one, Ref.zero] }, "ok")
-      | .error e => ({ d with st := none, env := #[] }, "panic " ++ e.toString)
+      | .ok s => ({ d with st := some s, env := #[Ref.one, Ref.zero], pit := none }, "ok")
+      | .error e => ({ d with st := none, env := #[], pit := none }, "panic " ++ e.toString)
     | _, _, _ => bad
   | ["newdefault", sb] =>
     match sb.toNat? with
     | some sb =>
       match St.new sb with
-      | .ok s => ({ d with st := some s, env := #[Ref.one, Ref.zero] }, "ok")
-      | .error e => ({ d with st := none, env := #[] }, "panic " ++ e.toString)
+      | .ok s => ({ d with st := some s, env := #[Ref.one, Ref.zero], pit := none }, "ok")
+      | .error e => ({ d with st := none, env := #[], pit := none }, "panic " ++ e.toString)
     | none => bad
   | "eda.boxed" :: rest =>
     match parseTree (rest.length + 1) rest with
